@@ -13,5 +13,5 @@ N_QUICK, N_THOROUGH = 120, 3000
 
 
 def run(ctx, replay=None):
-    return pc.run_property(ctx, "C08", pc.mon_c08, GEN, N_QUICK, N_THOROUGH, replay=replay, rule=RULE,
-                           assumptions=[pc.PFCP_NOTE], finding_sig=None)
+    return pc.run_property(ctx, "C08", pc.mon_c08x, GEN, N_QUICK, N_THOROUGH, replay=replay, rule=RULE,
+                           assumptions=[pc.PFCP_NOTE], finding_sig=None, directed=pc.directed_c05)
